@@ -525,6 +525,8 @@ def C18():
                          functions=["core::per::*" if "_per_" in h else "model::data::* (Message impls)"], timeout=900, mem_gb=8))
     jobs.append(MirJob("c18_mir_component_options", "Component::read/write/length: every Size and SkipField option a field announces is recorded unconditionally; a sized field is read as lookup -> allocate exactly -> read_exact -> parse from a cursor; skipped names are neither read, written nor counted (structure of the generic record container, which CBMC cannot execute with dependent fields)",
                        mirjobs.component_options))
+    jobs.append(MirJob("c18_mir_asn1_pairing", "nla/asn1.rs: every ASN1 implementation writes with its yasna primitive and reads with the inverse one (u32, bool, i64, octets, sequence, sequence-of, explicit and implicit tags), the value is not converted in between, both sides use the same tag field, children are visited in the same order, to_der/from_der/from_ber use the DER/BER entry points",
+                       mirjobs.asn1_pairing))
     jobs.append(MirJob("c18_mir_version_table", "gcc::Version::from over every u32 (SMT): each wire value of the enum decodes to the variant that is written as that value, and no other value decodes to such a variant",
                        mirjobs.version_table))
     return Prop("C18", [("core/per.rs", "per.rs"), ("model/data.rs", "data.rs")], jobs, lowerings=["L2"],
